@@ -170,8 +170,7 @@ func (m *MessageStore) processMessageLoop(ctx context.Context, tracer *messageMe
 			// unknown device, lets keep moving
 			continue
 		} else if !hasKnownChainKey {
-			// we dont know the chain key yet, add message to the device cache
-			device.queue.Add(message)
+			// we dont know the chain key yet, the message has been added to the device cache
 			_ = m.emitters.groupCacheMessage.Emit(*message)
 			continue
 		}
@@ -220,6 +219,13 @@ func (m *MessageStore) getOrCreateDeviceCache(ctx context.Context, message *mess
 			hasKnownChainKey: hasSecret,
 		}
 		m.deviceCaches[devicePublicKeyString] = device
+	}
+
+	if !device.hasKnownChainKey {
+		// park the message while muDeviceCaches is held: ProcessMessageQueueForDevicePK, which
+		// flips hasKnownChainKey and re-injects the parked messages, holds it too, so it cannot
+		// run between the test above and the park and leave the message behind
+		device.queue.Add(message)
 	}
 
 	return device, device.hasKnownChainKey
